@@ -291,4 +291,25 @@ fn run(e: &Engine) {
     e.require_fraction("common header before a relative one", "message", 0.02);
     e.require_fraction("message with a header designating no node", "message", 0.15);
     e.require_fraction("later message of a history", "message", 0.2);
+    // whole-message differential from bytes on generated trees: the recogniser
+    // decomposes the (mutated) message, the resolver designates the leaves
+    use crate::props::execdiff::{self, Case as D};
+    e.proptest("bytes-differential-generated-trees", e.tier.pick(150_000, 4_000_000), || crate::props::c01::mutated_generated().prop_map(|(tree, b)| D::Gen { tree, bytes: crate::bytes::B(b) }), execdiff::check);
+    e.require_fraction("judged message with two or more units", "judged", 0.2);
+    // bounded-exhaustive: for every tree of a pool, ALL strings of up to N tokens over the
+    // tree's own mnemonics (short form), a common command and `:` `;` `?`
+    let seed = e.seed;
+    let n_trees = if cfg!(debug_assertions) { e.tier.pick(40u64, 100) } else { e.tier.pick(300u64, 1500) };
+    let max_tokens = e.tier.pick(5usize, 6);
+    e.enumerate::<D, _, _>(
+        "bytes-differential-all-token-strings-per-tree",
+        n_trees,
+        move |part, f| {
+            let tree = execdiff::pool_tree(seed, part as u32);
+            let toks = execdiff::tree_tokens(&tree);
+            let idx: Vec<u8> = (0..toks.len() as u8).collect();
+            crate::gen::enumstr::for_all_strings(&idx, max_tokens, &mut |s| f(D::Pool { seed, idx: part as u32, bytes: crate::bytes::B(execdiff::concat(&toks, s)) }));
+        },
+        execdiff::check,
+    );
 }
